@@ -2,6 +2,7 @@ import Pyunicorn.Model.Proto
 import Pyunicorn.Model.Geo
 import Pyunicorn.Model.GeoHist
 import Pyunicorn.Model.GeoArea
+import Pyunicorn.Model.GeoRegion
 /-! Line-protocol driver for C12 (grid geometry).
 
 Exact requests (`Rat`): `cosang`, `eucl2`, `gridnn`, `rect`, `convlon`, `maxld`, `ald`,
@@ -11,7 +12,8 @@ Floating requests (`Float`, answers as IEEE-754 bit patterns): `angdist`,
 Round 5: `cosangf32` — the angular kernel in `Float32` (bit patterns compared); `gridnnf` / `gridnnf32` — `Grid.node_number` in `Float` / `Float32` (decision compared).
 Round 4: `angdist` / `eucld` answer through the object-level models `gridDistance` (a `GeoGrid`
 built from `lat`, `lon`) and `gridEuclideanDistance` (a `Grid` holding an array of shape
-`(d, n)`); exact requests `eucobj2` (object level, squared), `cwd`, `tld`, `georect`. -/
+`(d, n)`); exact requests `eucobj2` (object level, squared), `cwd`, `tld`, `georect`.
+Round 5e: `region` — `GeoGrid.region_indices` (exact; the mask as 0 / 1). -/
 open Pyunicorn Pyunicorn.Proto Pyunicorn.Geo
 
 def vec {α : Type} [Inhabited α] (l : List α) : Nat → α := fun i => l.getD i default
@@ -188,6 +190,11 @@ def answer (toks : List String) : String :=
   | ["linkdd", corr, n, nb, d, dg, a] =>
       showExcOptRats (linkDistDist (mat (ratMat d)) (mat (ratMat dg)) (mat (ratMat a)) n.toNat!
         nb.toNat! (corr == "1"))
+  -- round 5e: `GeoGrid.region_indices(region)` of the grid with these latitudes / longitudes
+  | ["region", lat, lon, region] =>
+      match regionIndices (rats lat) (rats lon) (rats region) with
+      | some m => showBools m
+      | none => "raise:ValueError"
   | _ => "bad-request"
 
 def main : IO Unit := runDriver answer
